@@ -1,6 +1,7 @@
 //go:build verif
 
 //verif:dir p2p/host/peerstore/pstoreds
+//verif:also C08 -
 //verif:replace github.com/libp2p/go-libp2p/core/peer.SplitAddr vC09splitAddr
 //verif:replace github.com/multiformats/go-multiaddr.NewMultiaddrBytes vC09addrFromBytes
 //verif:hook p2p/host/peerstore/pstoreds addrsRecord.flush
@@ -27,6 +28,8 @@ import (
 )
 
 var vC09now time.Time
+
+var vC09foreignSigner bool // the record being consumed was sealed by a key that is not its peer's
 
 type vC09clock struct{}
 
